@@ -5,6 +5,7 @@ import (
 	"crypto/sha256"
 	"encoding/hex"
 	"fmt"
+	"math/rand"
 	"os"
 	"os/exec"
 	"path/filepath"
@@ -44,8 +45,65 @@ func c13Policies(seed int64, n int, ts []*vlib.Target) []vlib.PolicySpec {
 			p = vlib.GenMixed(r, t, mp)
 		}
 		out = append(out, vlib.SpecOf(p, t.Name))
+		// a near-duplicate of the previous policy: same shape, one element different, so that
+		// anything remembered from one compilation (by shape, length, address) shows in the next
+		if i%4 == 3 {
+			out[len(out)-1] = mutateSpec(r, out[len(out)-2], ts)
+		}
 	}
 	return out
+}
+
+// mutateSpec copies a policy and changes exactly one element of it.
+func mutateSpec(r *rand.Rand, s vlib.PolicySpec, ts []*vlib.Target) vlib.PolicySpec {
+	t := targetByName(ts, s.Arch)
+	m := vlib.SpecOf(s.Policy(), s.Arch)
+	for try := 0; try < 20; try++ {
+		gi := r.Intn(len(m.Groups))
+		g := &m.Groups[gi]
+		switch r.Intn(4) {
+		case 0: // another action
+			g.Action = uint32(vlib.NamedActions[r.Intn(len(vlib.NamedActions))])
+			return m
+		case 1: // another default
+			m.Default = uint32(vlib.NamedActions[r.Intn(len(vlib.NamedActions))])
+			return m
+		case 2: // one name replaced by an unused one
+			if len(g.Names) == 0 {
+				continue
+			}
+			used := map[string]bool{}
+			for _, n := range g.Names {
+				used[n] = true
+			}
+			for _, e := range g.With {
+				used[e.Name] = true
+			}
+			for k := 0; k < 50; k++ {
+				n := t.Names[r.Intn(len(t.Names))]
+				if !used[n] {
+					g.Names[r.Intn(len(g.Names))] = n
+					return m
+				}
+			}
+		default: // one operand / argument / operation changed
+			if len(g.With) == 0 {
+				continue
+			}
+			e := &g.With[r.Intn(len(g.With))]
+			c := &e.Conds[r.Intn(len(e.Conds))]
+			switch r.Intn(3) {
+			case 0:
+				c.Val ^= 1 << uint(r.Intn(64))
+			case 1:
+				c.Arg = (c.Arg + 1 + uint32(r.Intn(5))) % 6
+			default:
+				c.Op = string(vlib.AllOps[r.Intn(8)])
+			}
+			return m
+		}
+	}
+	return m
 }
 
 func progDigest(ins []bpf.Instruction, err error) string {
